@@ -59,6 +59,15 @@ def impl_class(resp):
     return str(o.get("kind")), resp.get("stdout", "")
 
 
+CAPTURE = [
+    'let x = 1\nfor x in [10, 20] { let f = fun(a) { x + a } println(string_repr(f(0))) }\nprintln(string_repr(x))\n',
+    'let x = 1\nmatch Some(5) { Some(x) => { let g = fun(a) { x + a } println(string_repr(g(1))) } None => { 0 } }\nprintln(string_repr(x))\n',
+    'let x = 1\nif True { let x = 7 let h = fun(a) { x * a } println(string_repr(h(2))) }\nlet k = fun(a) { x + a }\nprintln(string_repr(k(1)))\n',
+    'fun outer(x) { let r = 0 for x in [3, 4] { let f = fun(a) { x + a } r = r + f(1) } if True { let x = 100 let g = fun(a) { x + a } r = r + g(0) } r + x }\nprintln(string_repr(outer(1)))\n',
+    'fun mk(x) { fun(a) { x + a } }\nlet x = 5\nlet add2 = mk(2)\nprintln(string_repr(add2(x)))\nlet x = 50\nprintln(string_repr(add2(x)))\n',
+]
+
+
 def run(ctx):
     ctx.coq("Properties/C05.v")
     ctx.trusted = ["coq/Ref.v (reference semantics, hand-written from the language documentation)",
@@ -71,6 +80,11 @@ def run(ctx):
     rng = ctx.rng
     n = 3000 if ctx.thorough else 500
     progs = genprog.programs(rng, n // 2, size=10, p_err=0.0) + genprog.programs(rng, n // 2, size=8, p_err=0.01)
+    # binders that shadow a visible variable of the same type (let / for / match / closure parameter), closures that
+    # capture them
+    shadow = {"fun", "closure", "match", "for", "while", "list", "tuple", "enum", "break", "return", "shadow"}
+    progs += genprog.programs(rng, n // 3, size=10, p_err=0.0, features=shadow)
+    progs += CAPTURE
     impl = oracle.batch(exe, [{"op": "run", "src": s, "tick_limit": 40000} for s in progs], timeout=900)
     sx = oracle.batch(exe, [{"op": "sexp", "src": s, "positions": True} for s in progs], timeout=900)
     lines = ["ref\t60000\t" + common.hexs("\n".join(x.get("items") or [])) for x in sx]
